@@ -458,6 +458,7 @@ type loopInfo struct {
 	spec   *LoopSpec
 	key    string
 	rangeAlloc *ssa.Alloc // hidden index of a range loop
+	variant0   *Term      // value of the loop's variant at the head of the current iteration
 }
 
 func findLoops(fn *ssa.Function) map[*ssa.BasicBlock]*loopInfo {
@@ -797,6 +798,20 @@ func (c *FnCtx) loopEntry(fr *Frame, st *State, li *loopInfo) {
 			assumed = append(assumed, env.evalBool(li.spec.Invs[i].Expr))
 		}
 		st.pc = c.vc.Name("pc", And(append([]Term{st.pc}, assumed...)...))
+		if li.spec.Variant != nil && fr.depth == 0 {
+			// `loop KEY variant e`: the value of e at the head of an arbitrary iteration
+			func() {
+				defer c.recoverSpec(li.spec.Variant)
+				v, t := env.eval(li.spec.Variant.Expr)
+				tm, _ := env.scalar(v, t)
+				if tm.Sort == SInt {
+					nv := c.vc.Name("variant", tm)
+					li.variant0 = &nv
+				} else {
+					c.eng.errorf("%s:%d: loop variant must be an integer expression", li.spec.Variant.File, li.spec.Variant.Line)
+				}
+			}()
+		}
 	}
 }
 
@@ -820,6 +835,21 @@ func (c *FnCtx) loopBack(fr *Frame, st *State, li *loopInfo) {
 		inv := &li.spec.Invs[i]
 		g := env.evalBool(inv.Expr)
 		c.addObl("inv-pres", c.invLabel(li, inv, i), inv.Props, st, g, inv)
+	}
+	if li.spec.Variant != nil && li.variant0 != nil {
+		// termination: on every way back to the loop head the variant is smaller than it was at
+		// the head, and it was not negative there (well-founded on the naturals)
+		func() {
+			defer c.recoverSpec(li.spec.Variant)
+			v, t := env.eval(li.spec.Variant.Expr)
+			tm, _ := env.scalar(v, t)
+			g := And(App(SBool, ">=", *li.variant0, IntLit(0)), App(SBool, "<", tm, *li.variant0))
+			lbl := li.key
+			if li.spec.Variant.Label != "" {
+				lbl += ":" + li.spec.Variant.Label
+			}
+			c.addObl("variant", lbl, li.spec.Variant.Props, st, g, li.spec.Variant)
+		}()
 	}
 }
 
